@@ -122,9 +122,9 @@ def hasAttr (attrs : Attrs) (k : String) : Bool := (attr attrs k).isSome
 def attrStrip (attrs : Attrs) (k : String) : Str := strip ((attr attrs k).getD [])
 
 def basicKeyE (s : Str) : EM Str :=
-  match DT.basicKey s with | .ok r => .ok r | .error _ => serr "basic-key"
+  match DT.basicKey s with | .ok r => .ok r | .error _ => serr "value did not match regular expression"
 def identifierE (s : Str) : EM Str :=
-  match DT.identifier s with | .ok r => .ok r | .error _ => serr "identifier"
+  match DT.identifier s with | .ok r => .ok r | .error _ => serr "not a valid Python identifier"
 
 def ES.gettype (es : ES) (name : Str) : Option (Str × EEntry) := es.types.find? (·.1 == lower name)
 
@@ -137,11 +137,11 @@ def regGet (env : Env) (name : Str) : EM Str :=
   if name.contains '.' then
     match env.dotted name with
     | .found c => .ok c
-    | .valueError => serr "datatype"
+    | .valueError => serr "datatype (registry ValueError)"
     | .raises e => .error (.internal e)
   else
     match DT.basicKey name with
-    | .error _ => serr "datatype name"
+    | .error _ => serr "value did not match regular expression"
     | .ok n => if Gen.stockNames.contains n then .ok n else serr "unloadable datatype name"
 
 def getHandler (attrs : Attrs) : EM (Option Str) :=
@@ -337,8 +337,8 @@ def truthyKey : Option Str → Bool | some (_ :: _) => true | _ => false
 /-- `SectionType._add_child` on the container on top of the stack -/
 def addChild (st : PSt) (key : Option Str) (info : EInfo) : EM PSt := do
   let ch ← topChildren st
-  if truthyKey key && ch.any (fun c => truthyKey c.1 && c.1 == key) then serr "child name already used"
-  if !info.attr.isEmpty && ch.any (fun c => c.2.attr == info.attr) then serr "child attrName name already used"
+  if truthyKey key && ch.any (fun c => truthyKey c.1 && c.1 == key) then serr "child name … already used"
+  if !info.attr.isEmpty && ch.any (fun c => c.2.attr == info.attr) then serr "child attribute name … already used"
   pure (setTopChildren st (ch ++ [(key, info)]))
 
 /-- write the finished key object back: it is the last child of the container (now on top of the stack) -/
